@@ -279,8 +279,16 @@ def _run_mapping(config, tmp_dir, tmp_result_dir, log):
 
     # ========= query marker cache =========
 
+    # (without a tmp_dir the cache goes into the private results
+    # buffer directory of this run, which run_mapping always removes;
+    # in the system's temp directory nothing would ever delete it)
+    if tmp_dir is not None:
+        query_marker_dir = tmp_dir
+    else:
+        query_marker_dir = tmp_result_dir
+
     query_marker_tmp = pathlib.Path(
-        mkstemp_clean(dir=tmp_dir,
+        mkstemp_clean(dir=query_marker_dir,
                       prefix='query_marker_',
                       suffix='.h5'))
 
